@@ -351,7 +351,7 @@ type locTarget struct {
 func (x *X) paramVars(fn *ssa.Function, args []SV) map[string]SV {
 	vars := map[string]SV{}
 	for i, p := range fn.Params {
-		if i < len(args) {
+		if i < len(args) && p.Name() != "_" && p.Name() != "" {
 			vars[p.Name()] = args[i]
 		}
 	}
@@ -364,7 +364,7 @@ func (x *X) fnResolver(fn *ssa.Function, extra map[string]types.Type) nameResolv
 			return t, true
 		}
 		for _, p := range fn.Params {
-			if p.Name() == name {
+			if p.Name() == name && name != "_" {
 				return p.Type(), true
 			}
 		}
@@ -717,6 +717,9 @@ func (x *X) afterCallGhost(st *State, callee string, sig *types.Signature, args,
 		for i, p := range fn.Params {
 			if i >= len(args) {
 				break
+			}
+			if p.Name() == "_" || p.Name() == "" {
+				continue
 			}
 			if _, ok := args[i].(*ClosV); ok {
 				continue
